@@ -245,6 +245,7 @@ let () =
            let what = String.trim (String.sub line 1 (String.length line - 1)) in
            let what = String.map (fun c -> if c = ' ' then '_' else c) what in
            if starts_with what "callback_arguments" then report_spec ~prop:"C13" ~pred:"callback_arguments_like_std" ~detail:what
+           else if starts_with what "into_" then report_spec ~prop:"C13" ~pred:"conversion_result_stable" ~detail:what
            else if starts_with what "neighbour" then report_spec ~prop:"C13" ~pred:"neighbours_untouched" ~detail:what
            else if starts_with what "final_drop_mismatch" then report_spec ~prop:"C15" ~pred:"final_drop_exact" ~detail:what
            else report_spec ~prop:"C16" ~pred:"no_double_drop" ~detail:what
